@@ -179,14 +179,17 @@ def nonneg(x, what):
         if x < 0:
             raise Unsupported(f"negative {what}")
         return
-    r, _ = z3_check(p.zc, x.t < 0, 3000)
+    from .core import light
+    ctxt, tl = light(p.zc, x.t < 0)
+    r, _ = z3_check(ctxt, tl, 3000)
     if r != z3.unsat:
         raise Unsupported(f"cannot show {what} is non-negative")
 
 
 def implied(path, t, timeout=3000):
-    from .core import z3_check
-    r, _ = z3_check(path.zc, z3.Not(t), timeout)
+    from .core import z3_check, light
+    ctxt, tl = light(path.zc, t)
+    r, _ = z3_check(ctxt, z3.Not(tl), timeout)
     return r == z3.unsat
 
 
@@ -304,6 +307,9 @@ class SBytes:
         for t, w in ((lo_t, "lower"), (hi_t, "upper")):
             if not implied(p, t >= 0):
                 raise Unsupported(f"slice with possibly negative {w} bound")
+        # the common case: bounds provably inside the string -> no clamping terms
+        if implied(p, z3.And(lo_t <= hi_t, hi_t <= L)):
+            return SBytes(z3.SubSeq(self.t, z3.simplify(lo_t), z3.simplify(hi_t - lo_t)))
         lo_c = z3.If(lo_t > L, L, lo_t)
         hi_c = z3.If(hi_t > L, L, hi_t)
         n = z3.If(hi_c > lo_c, hi_c - lo_c, z3.IntVal(0))
